@@ -209,6 +209,12 @@ func ruleT8(c *Ctx) {
 					}
 					pairs = append(pairs, pair{sym, field(x, "Aux"), x.Pos()})
 				}
+			case *ast.CallExpr:
+				// newEntry(name, value, section): a same-package constructor that returns one
+				// SymbolEntry literal; its parameters are replaced by the arguments
+				if sym, aux, ok := entryConstructorCall(c, p, x); ok {
+					pairs = append(pairs, pair{sym, aux, x.Pos()})
+				}
 			}
 			return true
 		})
@@ -288,7 +294,15 @@ func ruleT8(c *Ctx) {
 			return true
 		})
 		// defined globals: value = SymTable[name], section 1
-		c.check(hasSymTableValue(info, fd), "T8", "generateSymbolEntries|value from symbol table", c.L.Pos(fd.Pos()), "a defined GLOBAL symbol's Value must be the address looked up in SymTable under the same name")
+		var valueExprs []ast.Expr
+		for _, pr := range pairs {
+			if pr.sym != nil {
+				if v := field(pr.sym, "Value"); v != nil {
+					valueExprs = append(valueExprs, v)
+				}
+			}
+		}
+		c.check(hasSymTableValue(info, fd, valueExprs), "T8", "generateSymbolEntries|value from symbol table", c.L.Pos(fd.Pos()), "a defined GLOBAL symbol's Value must be the address looked up in SymTable under the same name")
 	}
 	// (g) name conversion
 	if fd, _ := c.L.FuncDecl("internal/filefmt", "(*CoffFormat).convertNameToBytes"); fd == nil {
@@ -439,7 +453,7 @@ func byteArrayLitString(info *types.Info, e ast.Expr) string {
 	return sb.String()
 }
 
-func hasSymTableValue(info *types.Info, fd *ast.FuncDecl) bool {
+func hasSymTableValue(info *types.Info, fd *ast.FuncDecl, values []ast.Expr) bool {
 	// `addr, ok := ctx.SymTable[globalName]` … `Value: uint32(addr)`
 	var addrObj, keyObj types.Object
 	ast.Inspect(fd.Body, func(n ast.Node) bool {
@@ -465,22 +479,76 @@ func hasSymTableValue(info *types.Info, fd *ast.FuncDecl) bool {
 		return false
 	}
 	ok := false
-	ast.Inspect(fd.Body, func(n ast.Node) bool {
-		kv, isKV := n.(*ast.KeyValueExpr)
-		if !isKV {
+	for _, ve := range values {
+		ast.Inspect(ve, func(m ast.Node) bool {
+			if v, isV := m.(*ast.Ident); isV && info.Uses[v] == addrObj {
+				ok = true
+			}
 			return true
-		}
-		if id, isID := kv.Key.(*ast.Ident); isID && id.Name == "Value" {
-			ast.Inspect(kv.Value, func(m ast.Node) bool {
-				if v, isV := m.(*ast.Ident); isV && info.Uses[v] == addrObj {
-					ok = true
-				}
-				return true
-			})
-		}
-		return true
-	})
+		})
+	}
 	return ok
+}
+
+// entryConstructorCall: call is f(args…) where f is a function of the same package whose body
+// is `return SymbolEntry{Main: CoffSymbol{…}, Aux: …}`; returns the CoffSymbol literal and the
+// Aux expression with f's parameters replaced by the call's arguments.
+func entryConstructorCall(c *Ctx, p *packagesPackage, call *ast.CallExpr) (*ast.CompositeLit, ast.Expr, bool) {
+	info := p.TypesInfo
+	fn, ok := calleeOf(info, call).(*types.Func)
+	if !ok || fn.Pkg() != p.Types {
+		return nil, nil, false
+	}
+	hd := funcDeclOf(p, fn)
+	if hd == nil || hd.Body == nil || len(hd.Body.List) != 1 || hd.Type.Params == nil {
+		return nil, nil, false
+	}
+	ret, ok := hd.Body.List[0].(*ast.ReturnStmt)
+	if !ok || len(ret.Results) != 1 {
+		return nil, nil, false
+	}
+	entry, ok := ret.Results[0].(*ast.CompositeLit)
+	if !ok || !isNamedLit(info, entry, "SymbolEntry") {
+		return nil, nil, false
+	}
+	bind := map[types.Object]ast.Expr{}
+	i := 0
+	for _, fld := range hd.Type.Params.List {
+		for _, nm := range fld.Names {
+			if i < len(call.Args) {
+				bind[info.Defs[nm]] = call.Args[i]
+			}
+			i++
+		}
+	}
+	if i != len(call.Args) {
+		return nil, nil, false
+	}
+	subst := func(e ast.Expr) ast.Expr {
+		if id, ok := ast.Unparen(e).(*ast.Ident); ok {
+			if a, ok := bind[info.Uses[id]]; ok {
+				return a
+			}
+		}
+		return e
+	}
+	main, ok := field(entry, "Main").(*ast.CompositeLit)
+	if !ok {
+		return nil, nil, false
+	}
+	cp := &ast.CompositeLit{Type: main.Type, Lbrace: main.Lbrace, Rbrace: main.Rbrace}
+	for _, el := range main.Elts {
+		if kv, ok := el.(*ast.KeyValueExpr); ok {
+			cp.Elts = append(cp.Elts, &ast.KeyValueExpr{Key: kv.Key, Colon: kv.Colon, Value: subst(kv.Value)})
+		} else {
+			cp.Elts = append(cp.Elts, el)
+		}
+	}
+	aux := field(entry, "Aux")
+	if aux != nil {
+		aux = subst(aux)
+	}
+	return cp, aux, true
 }
 
 func nodeText(c *Ctx, n ast.Node) string { return "" }
